@@ -2,8 +2,6 @@ RC.append(("hessian of a function of an empty (size-0) array: jacobian stacks an
            [("C14", "hessian", "rev", "raised", "argument:empty,operator:hessian")]))
 RC.append(("np.linalg.solve with a batched matrix and a vector right-hand side that broadcasts: wrong first-order gradient (see C01) hence a non-symmetric, wrong second derivative",
            [("C07", "solve", "RR", "hessian-not-symmetric", "batch_broadcast:True,rhs_vector:True"), ("C07", "solve", "RR", "wrong-value", "batch_broadcast:True,rhs_vector:True")]))
-RC.append(("np.linalg.norm with a tuple of negative axes: wrong first-order rule (see C01) hence disagreeing / asymmetric / wrong second derivatives",
-           [("C07", "norm", "*", k, "axis_sign:tuple-neg") for k in ("hessian-not-symmetric", "routes-disagree", "wrong-value", "wrong-shape")]))
 RC.append(("np.diag of a non-square 2-D array (namespace scan; same root cause as the C01 entry)", [("C15", "diag", "rev", "wrong-shape", "shape_rank:2")]))
 RC.append(("forward-mode np.sort / np.partition of 2-D arrays (namespace scan; same root cause as the C02 entry)",
            [("C15", "sort", "fwd", "wrong-shape", "shape_rank:2"), ("C15", "partition", "fwd", "wrong-shape", "shape_rank:2"),
@@ -35,7 +33,6 @@ RC.append(("np.diagonal(axis1=-1, axis2=-2) with unequal last dimensions (see C0
 RC.append(("np.kron beyond 2-D (see C01 entry)", [("C09", "kron", "rev", "wrong-value", "max_rank:~[3-9]")]))
 RC.append(("np.linalg.norm of a complex array: the reverse rule returns the conjugate of the documented gradient and the forward rule a complex tangent for a real output",
            [("C09", "norm", "rev", "wrong-value", "arg_cplx:complex"), ("C09", "norm", "fwd", "wrong-shape", "arg_cplx:complex"),
-            ("C09", "norm", "rev", "wrong-shape", "axis_sign:tuple-neg"), ("C09", "norm", "rev", "wrong-value", "axis_sign:tuple-neg"),
             ("C09", "norm", "rev", "wrong-value", "ord:inf"), ("C09", "norm", "fwd", "wrong-value", "ord:inf")]))
 RC.append(("forward-mode sort/partition of >=2-D arrays (see C02 entry)",
            [("C09", p, "fwd", k, "rank:~[2-9]") for p in ("sort", "partition") for k in ("wrong-shape", "wrong-value")]))
@@ -63,8 +60,7 @@ RC.append(("np.diff with n >= 2 along an axis shorter than n+1 (NumPy returns an
 RC.append(("np.diff of a complex array whose result is empty: the VJP returns real zeros for a complex argument",
            [("C09", "diff", "rev", "wrong-shape", "arg_cplx:complex")]))
 RC.append(("np.kron beyond 2-D / np.linalg.norm(ord=inf): wrong first-order rules (see C01) also give a wrong Gauss-Newton Hessian",
-           [("C07", "kron", "*", "gauss-newton-hessian-wrong", "max_rank:~[3-9]"), ("C07", "norm", "*", "gauss-newton-hessian-wrong", "ord:inf"),
-            ("C07", "norm", "*", "gauss-newton-hessian-wrong", "axis_sign:tuple-neg")]))
+           [("C07", "kron", "*", "gauss-newton-hessian-wrong", "max_rank:~[3-9]"), ("C07", "norm", "*", "gauss-newton-hessian-wrong", "ord:inf")]))
 RC.append(("np.linalg.eigh: the rule skips its eigenvector term when the eigenvector cotangent is zero-VALUED (`if anp.any(vg)`), even when that cotangent is a traced quantity; "
            "second derivatives of a function that depends on eigenvectors are wrong wherever its first-order eigenvector cotangent vanishes (zero-residual least squares: Hessian 0 instead of J^T J)",
            [("C07", "eigh", "*", "gauss-newton-hessian-wrong", "observable:~(fun|proj)")]))
